@@ -5,6 +5,12 @@ import (
 	"strings"
 )
 
+// ubDefs: the decoder of the packed byte-string literals, inlined into every shard header (test transport only).
+const ubDefs = "From Coq Require Import ZArith Uint63.\n" +
+	"Definition bytew (w : int) (k : int) : N := Z.to_N (Uint63.to_Z (Uint63.land (Uint63.lsr w k) 255%uint63)).\n" +
+	"Definition unpack7 (w : int) : list N := [bytew w 48; bytew w 40; bytew w 32; bytew w 24; bytew w 16; bytew w 8; bytew w 0]%uint63.\n" +
+	"Definition ub (n : N) (ws : list int) : list N := firstn (N.to_nat n) (flat_map unpack7 ws).\n"
+
 // cb prints a byte string as a Coq term of type list N.  Short strings are list literals; longer ones use
 // Lib/HCaseIO.ub (7 bytes per primitive 63-bit integer), runs of >= 32 equal bytes use `repeat`.
 func cb(b []byte) string {
